@@ -22,6 +22,8 @@ var AllHosts = []string{
 	"test.co.uk", "ads.test.co.uk", "a1b2c3.io", "shop.example.org",
 	"media.cdn.example.net", "tracker.io", "stats.tracker.io", "banner.shop.example.org",
 	"trackertracker.io", "localhost",
+	// internationalised names, as typed and in their ASCII form
+	"b\u00fccher.example.org", "xn--bcher-kva.example.org",
 }
 
 // The index structures key on 32-bit djb2 hashes (host names in the DNS
